@@ -64,25 +64,55 @@ PROPS["C03"] = {
     "exhaustive": [
         {"spec": "Lookup.tla", "cfg": "Lookup_quick.cfg", "timeout": 900},
         {"spec": "Lookup.tla", "cfg": "Lookup_neg_spawn.cfg", "expect": "violation", "timeout": 300},
+        {"spec": "PutProvide.tla", "cfg": "PutProvide_quick.cfg"},
+        {"spec": "PutProvide.tla", "cfg": "PutProvide_deadline.cfg"},
+        {"spec": "PutProvide.tla", "cfg": "PutProvide_deadline5.cfg"},
+        {"spec": "ValueSearch.tla", "cfg": "ValueSearch_q1.cfg"},
+        {"spec": "FindProviders.tla", "cfg": "FindProviders_c1.cfg"},
+    ] + [{"spec": "OptProvide.tla", "cfg": c} for c in ("OptProvide_R0_T2_P2_0.cfg", "OptProvide_R1_T2_P2_0.cfg", "OptProvide_R2_T2_P2_2.cfg",
+         "OptProvide_R3_T2_P1_0.cfg", "OptProvide_R4_T2_P0_0.cfg", "OptProvide_R4_T3_P1_1.cfg", "OptProvide_R5_T2_P2_0.cfg")] + [
+        {"spec": "OptProvide.tla", "cfg": "OptProvide_neg_R0.cfg", "expect": "violation"},
     ],
-    "drivers": [dht_driver("TestOpsAll")],
+    "drivers": [dht_driver("TestOpsAll"), dht_driver("TestOpsOptProvide")],
     "assumptions": COMMON_ASSUME + ["'promptly' and 'bounded time' are judged in virtual time; background work is judged by a goroutine census of the synctest bubble 3 virtual minutes after the operation returned and again after Close"],
     "explanation": "Deadlock freedom and termination of the lookup protocol are model-checked (Lookup.tla with fairness); every public routing operation of the real IpfsDHT is driven through failing / silent / lying peers, all delivery orders and cancellation points (small scopes) and validated against the C03 clauses of DhtTrace.tla (return, prompt cancel, channel closed, no panic, no background work left).",
 }
 PROPS["C04"] = {
-    "exhaustive": [],
+    "exhaustive": [
+        {"spec": "ValueSearch.tla", "cfg": "ValueSearch_q0.cfg"},
+        {"spec": "ValueSearch.tla", "cfg": "ValueSearch_q1.cfg"},
+        {"spec": "ValueSearch.tla", "cfg": "ValueSearch_q2.cfg"},
+        {"spec": "ValueSearch.tla", "cfg": "ValueSearch_thorough.cfg", "tier": "thorough", "timeout": 3000},
+        {"spec": "ValueSearch.tla", "cfg": "ValueSearch_neg_emit.cfg", "expect": "violation"},
+        {"spec": "ValueSearch.tla", "cfg": "ValueSearch_neg_validate.cfg", "expect": "violation"},
+    ],
     "drivers": [dht_driver("TestOpsValue")],
     "assumptions": COMMON_ASSUME + ["values are abstracted to (validity class, rank) by the harness validator"],
     "explanation": "GetValue / SearchValue of the real IpfsDHT with valid, stale, invalid and mis-keyed records at responders and in the local store, every quorum, validated against C04 clauses.",
 }
 PROPS["C06"] = {
-    "exhaustive": [],
-    "drivers": [dht_driver("TestOpsPut"), dht_driver("TestOpsValue")],
+    "exhaustive": [
+        {"spec": "PutProvide.tla", "cfg": "PutProvide_quick.cfg"},
+        {"spec": "PutProvide.tla", "cfg": "PutProvide_deadline.cfg"},
+        {"spec": "PutProvide.tla", "cfg": "PutProvide_deadline5.cfg"},
+        {"spec": "PutProvide.tla", "cfg": "PutProvide_neg_abort.cfg", "expect": "violation"},
+        {"spec": "PutProvide.tla", "cfg": "PutProvide_neg_store.cfg", "expect": "violation"},
+        {"spec": "ValueSearch.tla", "cfg": "ValueSearch_q0.cfg"},
+        {"spec": "OptProvide.tla", "cfg": "OptProvide_R5_T2_P2_0.cfg"},
+    ],
+    "drivers": [dht_driver("TestOpsPut"), dht_driver("TestOpsValue"), dht_driver("TestOpsOptProvide")],
     "assumptions": COMMON_ASSUME,
     "explanation": "PutValue / Provide / corrective puts of the real IpfsDHT; recipients and message content compared with the lookup result reconstructed by the trace spec.",
 }
 PROPS["C08"] = {
-    "exhaustive": [],
+    "exhaustive": [
+        {"spec": "FindProviders.tla", "cfg": "FindProviders_c1.cfg"},
+        {"spec": "FindProviders.tla", "cfg": "FindProviders_c0.cfg"},
+        {"spec": "FindProviders.tla", "cfg": "FindProviders_c2.cfg"},
+        {"spec": "FindProviders.tla", "cfg": "FindProviders_thorough.cfg", "tier": "thorough", "timeout": 3000},
+        {"spec": "FindProviders.tla", "cfg": "FindProviders_neg_cap.cfg", "expect": "violation"},
+        {"spec": "FindProviders.tla", "cfg": "FindProviders_neg_zero.cfg", "expect": "violation"},
+    ],
     "drivers": [dht_driver("TestOpsProviders")],
     "assumptions": COMMON_ASSUME,
     "explanation": "FindProvidersAsync of the real IpfsDHT; yielded peers vs GET_PROVIDERS answers delivered, count cap, early stop, channel closure.",
